@@ -227,6 +227,10 @@ theorem C02_no_lock_across_closure :
 theorem C02_a_handlers_expired_nested_call_is_not_fatal :
     Skeleton.current.bcReceiveErrorsOnlyClosed = true ∧ Skeleton.current.panicSitesCanonical = true := by decide
 
+/-- M3 lets every handler thread run on its own; an invocation of a passed closure is such a handler (`CallClosure`). The table holds the closure's wrapper itself — no per-closure mutex, semaphore or queue around it — and its mutex is not held while the closure runs (checked against the regenerated skeleton): a stalled invocation blocks no other invocation of the same closure, and a chain that re-enters the closure does not wait for itself. -/
+theorem C02_closure_invocations_are_not_serialised :
+    Skeleton.current.clStoresCreatedClosure = true ∧ Skeleton.current.clInvokeOutsideLock = true := by decide
+
 end Panrpc.Sys
 
 #print axioms Panrpc.Sys.C02_loops_never_wait
@@ -242,3 +246,4 @@ end Panrpc.Sys
 #print axioms Panrpc.Sys.C02_needs_nonblocking_wrappers
 #print axioms Panrpc.Sys.C02_window_stalled_handler_blocks_others
 #print axioms Panrpc.Sys.C02_a_handlers_expired_nested_call_is_not_fatal
+#print axioms Panrpc.Sys.C02_closure_invocations_are_not_serialised
